@@ -1,3 +1,204 @@
-//! Command-decoder harnesses: child module of the verbatim copy of `src/net/command.rs`.
+//! Command-decoder harnesses (C06, reduced scope): child module of the verbatim copy of
+//! `src/net/command.rs`.
 #![allow(dead_code, unused_imports)]
 use super::*;
+use crate::net::frame::Error as FrameError;
+use std::io::Cursor;
+
+pub(crate) fn format_stub(_a: std::fmt::Arguments<'_>) -> String {
+    String::new()
+}
+pub(crate) fn lossy_stub(_v: &[u8]) -> std::borrow::Cow<'_, str> {
+    std::borrow::Cow::Borrowed("")
+}
+
+macro_rules! c_harness { ($uw:expr, $(#[$m:meta])* fn $n:ident() $b:block) => {
+    #[kani::proof]
+    #[kani::unwind($uw)]
+    #[kani::stub(alloc::fmt::format, format_stub)]
+    #[kani::stub(std::string::String::from_utf8_lossy, lossy_stub)]
+    $(#[$m])* fn $n() $b
+} }
+
+const TAIL: usize = 3;
+struct Out<const M: usize> {
+    b: [u8; M],
+    n: usize,
+}
+impl<const M: usize> Out<M> {
+    fn new() -> Self {
+        Out { b: [0; M], n: 0 }
+    }
+    fn put(&mut self, x: u8) {
+        self.b[self.n] = x;
+        self.n += 1;
+    }
+    fn crlf(&mut self) {
+        self.put(b'\r');
+        self.put(b'\n');
+    }
+    fn bulk(&mut self, p: &[u8]) {
+        assert!(p.len() < 10);
+        self.put(b'$');
+        self.put(b'0' + p.len() as u8);
+        self.crlf();
+        let mut i = 0;
+        while i < p.len() {
+            self.put(p[i]);
+            i += 1;
+        }
+        self.crlf();
+    }
+    fn array(&mut self, n: usize) {
+        self.put(b'*');
+        self.put(b'0' + n as u8);
+        self.crlf();
+    }
+    fn tail(&mut self) {
+        let t: [u8; TAIL] = kani::any();
+        let mut i = 0;
+        while i < TAIL {
+            self.b[self.n + i] = t[i];
+            i += 1;
+        }
+    }
+}
+
+fn bytes_of(p: &[u8]) -> Bytes {
+    Bytes::copy_from_slice(p)
+}
+
+/// Request bytes -> (real check, real parse, real `Command::try_from`): exactly the command sent,
+/// exactly the request's length consumed, `Incomplete` on every strict prefix.
+fn decode<const M: usize>(o: &Out<M>) -> Command {
+    // every strict prefix (the cut points are enumerated in the harness: a symbolic cut makes the
+    // length of every reader loop symbolic and symex diverge — measured)
+    let mut cut = 0;
+    while cut < o.n {
+        let mut c = Cursor::new(&o.b[..cut]);
+        let r = Frame::check(&mut c);
+        assert!(r == Err(FrameError::Incomplete), "a strict prefix of a valid encoding is not reported as incomplete");
+        std::mem::forget(r);
+        cut += 1;
+    }
+    let mut c = Cursor::new(&o.b[..o.n + TAIL]);
+    let r = Frame::check(&mut c);
+    assert!(r.is_ok(), "check rejects a well-formed request");
+    assert!(c.position() as usize == o.n, "check accepts a length different from the request's");
+    c.set_position(0);
+    let f = match Frame::parse(&mut c) {
+        Ok(f) => f,
+        Err(_) => {
+            assert!(false, "parse rejects a well-formed request");
+            loop {}
+        }
+    };
+    assert!(c.position() as usize == o.n, "parse consumed a length different from the request's");
+    match Command::try_from(f) {
+        Ok(cmd) => cmd,
+        Err(_) => {
+            assert!(false, "a well-formed request is not accepted as a command");
+            loop {}
+        }
+    }
+}
+
+/// keys are valid UTF-8: here ASCII (the UTF-8 gate itself is exercised by `c06_gate`)
+fn ascii<const L: usize>() -> [u8; L] {
+    let s: [u8; L] = kani::any();
+    let mut i = 0;
+    while i < L {
+        kani::assume(s[i] < 0x80);
+        i += 1;
+    }
+    s
+}
+
+c_harness! { 40, fn c06_decode_set() {
+    let k = ascii::<2>();
+    let v: [u8; 3] = kani::any(); // arbitrary bytes incl. CR, LF, NUL
+    let mut o = Out::<{ 36 }>::new();
+    o.array(3);
+    o.bulk(b"SET");
+    o.bulk(&k);
+    o.bulk(&v);
+    o.tail();
+    let cmd = decode(&o);
+    let want = Command::Set(Set::new(Utf8Bytes(bytes_of(&k)), bytes_of(&v)));
+    assert!(cmd == want, "SET decoded to a different command / key / value");
+    std::mem::forget(cmd);
+    std::mem::forget(want);
+} }
+
+c_harness! { 40, fn c06_decode_get() {
+    let k = ascii::<2>();
+    let mut o = Out::<{ 28 }>::new();
+    o.array(2);
+    o.bulk(b"GET");
+    o.bulk(&k);
+    o.tail();
+    let cmd = decode(&o);
+    let want = Command::Get(Get::new(Utf8Bytes(bytes_of(&k))));
+    assert!(cmd == want, "GET decoded to a different command / key");
+    std::mem::forget(cmd);
+    std::mem::forget(want);
+} }
+
+c_harness! { 40, fn c06_decode_del2() {
+    let k1 = ascii::<1>();
+    let k2 = ascii::<2>();
+    let mut o = Out::<{ 36 }>::new();
+    o.array(3);
+    o.bulk(b"DEL");
+    o.bulk(&k1);
+    o.bulk(&k2);
+    o.tail();
+    let cmd = decode(&o);
+    let want = Command::Del(Del::new(vec![Utf8Bytes(bytes_of(&k1)), Utf8Bytes(bytes_of(&k2))]));
+    assert!(cmd == want, "DEL decoded to a different command / key list");
+    std::mem::forget(cmd);
+    std::mem::forget(want);
+} }
+
+/// Command gate: for an arbitrary frame that is an array of <= 3 elements (bulk strings of <= 3
+/// arbitrary bytes, or a non-bulk element), `try_from` returns `Ok` ONLY for the well-formed shapes
+/// (exact upper-case name, exact arity, UTF-8 keys); a non-array frame is always refused.
+c_harness! { 12, fn c06_gate() {
+    let n: usize = kani::any();
+    kani::assume(n <= 3);
+    let name: [u8; 3] = kani::any();
+    let nlen: usize = kani::any();
+    kani::assume(nlen <= 3);
+    let a1: [u8; 2] = kani::any();
+    let a1len: usize = kani::any();
+    kani::assume(a1len <= 2);
+    let a2: [u8; 2] = kani::any();
+    let first_is_bulk: bool = kani::any();
+    let second_is_bulk: bool = kani::any();
+    let mut items: Vec<Frame> = Vec::with_capacity(3);
+    if n >= 1 {
+        items.push(if first_is_bulk { Frame::BulkString(bytes_of(&name[..nlen])) } else { Frame::Integer(1) });
+    }
+    if n >= 2 {
+        items.push(if second_is_bulk { Frame::BulkString(bytes_of(&a1[..a1len])) } else { Frame::Null });
+    }
+    if n >= 3 {
+        items.push(Frame::BulkString(bytes_of(&a2)));
+    }
+    let is_array: bool = kani::any();
+    let f = if is_array { Frame::Array(items) } else { Frame::BulkString(bytes_of(&name[..nlen])) };
+    let r = Command::try_from(f);
+    let nm = |s: &[u8; 3]| nlen == 3 && name[0] == s[0] && name[1] == s[1] && name[2] == s[2];
+    let key_utf8 = std::str::from_utf8(&a1[..a1len]).is_ok();
+    let a2_utf8 = std::str::from_utf8(&a2).is_ok();
+    match &r {
+        Ok(Command::Set(_)) => assert!(is_array && first_is_bulk && nm(b"SET") && n == 3 && second_is_bulk && key_utf8, "SET accepted from a malformed frame"),
+        Ok(Command::Get(_)) => assert!(is_array && first_is_bulk && nm(b"GET") && n == 2 && second_is_bulk && key_utf8, "GET accepted from a malformed frame"),
+        Ok(Command::Del(_)) => assert!(is_array && first_is_bulk && nm(b"DEL") && n >= 2 && second_is_bulk && key_utf8 && (n == 2 || a2_utf8), "DEL accepted from a malformed frame"),
+        Err(_) => {}
+    }
+    kani::cover!(matches!(&r, Ok(Command::Set(_))), "a SET passed the gate");
+    kani::cover!(matches!(&r, Ok(Command::Del(_))), "a DEL passed the gate");
+    kani::cover!(matches!(&r, Err(Error::NotUtf8(_))), "a non-UTF-8 key was refused");
+    std::mem::forget(r);
+} }
